@@ -24,10 +24,12 @@ noreturn void error_tok(Token *tok, char *fmt, ...) { verif_diag_tok = tok; veri
 void warn_tok(Token *tok, char *fmt, ...) {}
 
 bool equal(Token *tok, char *op) {
-  for (int i = 0; i < tok->len; i++)
-    if (op[i] == '\0' || op[i] != tok->loc[i])
+  // iterate over `op` (a string literal at every call site, so the bound is concrete for cbmc)
+  int i = 0;
+  for (; op[i] != '\0'; i++)
+    if (i >= tok->len || op[i] != tok->loc[i])
       return false;
-  return op[tok->len] == '\0';
+  return tok->len == i;
 }
 
 Token *skip(Token *tok, char *op) {
